@@ -61,6 +61,9 @@ pub enum ForgeTid {
     /// id of the most recent find_node query the node sent (bootstrap or refresh)
     LatestFindNode,
     Bytes(Vec<u8>),
+    /// an observed id (per `base`), cut to `keep` bytes, with `append` added: a wrong-length id
+    /// derived from a real one
+    Derived { base: Box<ForgeTid>, keep: usize, append: Vec<u8> },
 }
 
 #[derive(Clone, Debug, Serialize, Deserialize, PartialEq, Eq)]
@@ -312,6 +315,12 @@ impl Shared {
     }
 
     fn find_query(&self, node: usize, tid: &ForgeTid) -> Option<(Vec<u8>, SocketAddr)> {
+        if let ForgeTid::Derived { base, keep, append } = tid {
+            let (mut t, a) = self.find_query(node, base)?;
+            t.truncate(*keep);
+            t.extend_from_slice(append);
+            return Some((t, a));
+        }
         let addr = self.sc.reals[node].addr;
         let n = self.net.lock();
         let mut hits: Vec<(Vec<u8>, SocketAddr)> = Vec::new();
